@@ -18,6 +18,7 @@ func init() {
 }
 
 func runC43(c *Ctx) {
+	sweepC43(c)
 	const pk = "ssh/agent"
 	fns := c.funcsOfPkg(pk)
 	exempt := map[string]string{
